@@ -132,10 +132,20 @@ func IsDone(c erpc.CallCmd) bool {
 type Gate struct{ open bool }
 
 // Wait blocks in the model until the gate is open.
-func (g *Gate) Wait() { vsched.Block(vsched.KGate, "gate", func() bool { return g.open }) }
+func (g *Gate) Wait() { vsched.Block(vsched.KGate, g, func() bool { return g.open }) }
 
 // Open opens the gate (a scheduling point).
-func (g *Gate) Open() { vsched.Point(vsched.KGate, "gate-open", nil); g.open = true }
+func (g *Gate) Open() { vsched.Point(vsched.KGate, g, nil); g.open = true }
+
+var eventObj = new(int)
+
+// Event appends to the observation log through a scheduling point on a common
+// object, so that the relative order of events of different threads is part of
+// the explored state (required for oracles that compare event order).
+func Event(format string, a ...interface{}) {
+	vsched.Point(vsched.KOther, eventObj, nil)
+	vsched.Logf(format, a...)
+}
 
 // Counter bumps a named per-execution counter that the explorer sums into the evidence.
 func Counter(name string) {
